@@ -75,6 +75,18 @@ def run(rep, br, proofs, rng, tier):
         c = mk_case("g%d" % i, "modgraph", rng.choice(["opt", "noopt"]), rng.choice(["0", "1"]), hexs(main.encode()), *[hexs(m.encode()) for m in mods])
         c["main"], c["mods"], c["expect"] = main, mods, expect
         cases.append(c)
+    # wide programs: module indexes around the one-byte boundary of the two-byte operand
+    for N in (255, 256, 257, 300):
+        mods = ["global log\nlog = append(log, \"m%d\")\nstate := 0\nreturn {set: func(v) { state = v }, get: func() { return state }, name: \"m%d\", box: [0]}\n" % (k, k) for k in range(1, N + 1)]
+        lines = ["global(log, apply, applyp)", "out := []", "ws := [undefined]"] + ["ws = append(ws, import(\"m%d\"))" % k for k in range(1, N + 1)]
+        for k in sorted({1, 2, N - 256, N - 255, 255, 256, 257, N - 1, N}):
+            if 1 <= k <= N:
+                lines.append("ws[%d].set(%d)\nout = append(out, [\"same\", import(\"m%d\").get() == %d, import(\"m%d\").name == \"m%d\", ws[%d].box == import(\"m%d\").box])" % (k, 1000 + k, k, 1000 + k, k, k, k, k))
+        lines.append("return [out, log]")
+        main = "\n".join(lines) + "\n"
+        c = mk_case("wide%d" % N, "modgraph", "opt", "0", hexs(main.encode()), *[hexs(m.encode()) for m in mods])
+        c["main"], c["mods"], c["expect"] = main, mods[:2], "run"
+        cases.append(c)
     impl, _ = vlib.run_impl([c["line"] for c in cases], timeout=2400)
     fails, ran, cyc = [], 0, 0
     vcases = []
@@ -113,7 +125,7 @@ def run(rep, br, proofs, rng, tier):
         rep.violation({"property": "C12", "kind": "oracle", "why": why, "case": c["line"][:2000], "script": c["main"] + "\n--- modules ---\n" + "\n---\n".join(c["mods"])})
     rep.coverage.update({
         "evaluations": len(cases), "distinct_nontrivial": ran + cyc,
-        "rule": "generated import graphs over 1-5 source modules (DAGs with imports at top level, under conditions and inside functions of modules; back edges forming cycles of length 1-5; unknown module names) with main scripts importing at top level, in loops, in functions and conditionally, x optimizer on/off x encode/decode round trip, executed on two VMs over one Bytecode; each module body logs its start in a global array; every pair of imports of one module is probed for shared state and object identity; non-trivial = ran with probes / rejected at compile time as expected",
+        "rule": "programs with 255, 256, 257 and 300 modules (module indexes around the byte boundary of the operand) with state and identity probes; generated import graphs over 1-5 source modules (DAGs with imports at top level, under conditions and inside functions of modules; back edges forming cycles of length 1-5; unknown module names) with main scripts importing at top level, in loops, in functions and conditionally, x optimizer on/off x encode/decode round trip, executed on two VMs over one Bytecode; each module body logs its start in a global array; every pair of imports of one module is probed for shared state and object identity; non-trivial = ran with probes / rejected at compile time as expected",
         "samples": [cases[0]["main"], cases[0]["mods"][0]],
         "graphs_run": ran, "cycles_or_unknown_rejected": cyc, "oracle_failures": len(fails)})
 
